@@ -61,20 +61,19 @@ Proof.
       split; [reflexivity|]. repeat constructor. cbn. discriminate.
 Qed.
 
-Lemma html_runs_ok kinds on cx row : forall col sp,
-  html_runs kinds on cx col row = Ok sp ->
+Lemma html_runs_ok on cx row : forall col sp,
+  html_runs on cx col row = Ok sp ->
   spans_text sp = row_text row /\ 0 <= n_swapped sp <= (if on && (col <=? cx) then 1 else 0) /\ one_char_highlights sp.
 Proof.
   induction row as [|[[a cs] run] rest IH]; intros col sp H.
   - cbn [html_runs] in H. inversion H; subst sp. split; [reflexivity|]. split; [|constructor].
     change (n_swapped []) with 0. destruct (on && (col <=? cx)); lia.
   - cbn [html_runs] in H.
-    destruct (match nthz kinds a with Some k => k =? 2 | None => true end); [discriminate|].
     destruct (on && (col <=? cx)) eqn:Eon.
     + set (w := calc_width (map trans_chr run)) in *.
       destruct (cx <? col + w) eqn:Ehit.
       * destruct (html_span a (map trans_chr run) (cx - col)) as [s1|] eqn:E1; [|discriminate]. cbn [bind] in H.
-        destruct (html_runs kinds on cx (col + w) rest) as [s2|] eqn:E2; [|discriminate]. cbn [bind] in H.
+        destruct (html_runs on cx (col + w) rest) as [s2|] eqn:E2; [|discriminate]. cbn [bind] in H.
         inversion H; subst sp. destruct (html_span_ok _ _ _ _ E1) as (T1 & N1 & O1).
         destruct (IH _ _ E2) as (T2 & N2 & O2).
         assert (Ek : 0 <=? cx - col = true) by lia. rewrite Ek in N1.
@@ -84,7 +83,7 @@ Proof.
         -- rewrite n_swapped_app. lia.
         -- apply Forall_app. split; assumption.
       * destruct (html_span a (map trans_chr run) (-1)) as [s1|] eqn:E1; [|discriminate]. cbn [bind] in H.
-        destruct (html_runs kinds on cx (col + w) rest) as [s2|] eqn:E2; [|discriminate]. cbn [bind] in H.
+        destruct (html_runs on cx (col + w) rest) as [s2|] eqn:E2; [|discriminate]. cbn [bind] in H.
         inversion H; subst sp. destruct (html_span_ok _ _ _ _ E1) as (T1 & N1 & O1).
         destruct (IH _ _ E2) as (T2 & N2 & O2).
         change (n_swapped s1 = 0) in N1.
@@ -93,7 +92,7 @@ Proof.
         -- rewrite n_swapped_app. destruct (on && (col + w <=? cx)); lia.
         -- apply Forall_app. split; assumption.
     + destruct (html_span a (map trans_chr run) (-1)) as [s1|] eqn:E1; [|discriminate]. cbn [bind] in H.
-      destruct (html_runs kinds on cx col rest) as [s2|] eqn:E2; [|discriminate]. cbn [bind] in H.
+      destruct (html_runs on cx col rest) as [s2|] eqn:E2; [|discriminate]. cbn [bind] in H.
       inversion H; subst sp. destruct (html_span_ok _ _ _ _ E1) as (T1 & N1 & O1).
       destruct (IH _ _ E2) as (T2 & N2 & O2). rewrite Eon in N2.
       change (n_swapped s1 = 0) in N1.
@@ -103,8 +102,8 @@ Proof.
       * apply Forall_app. split; assumption.
 Qed.
 
-Lemma html_rows_ok kinds cursor rows : forall y out,
-  html_rows kinds cursor y rows = Ok out ->
+Lemma html_rows_ok cursor rows : forall y out,
+  html_rows cursor y rows = Ok out ->
   map spans_text out = map row_text rows /\ Forall one_char_highlights out /\
   0 <= total_swapped out <= (match cursor with Some (_, cy) => if y <=? cy then 1 else 0 | None => 0 end).
 Proof.
@@ -113,9 +112,9 @@ Proof.
     cbn [total_swapped]. destruct cursor as [[x cy]|]; [destruct (y <=? cy)|]; lia.
   - cbn [html_rows] in H.
     destruct (match cursor with Some (x, cy) => (y =? cy, x) | None => (false, 0) end) as [on_row cx] eqn:Ec.
-    destruct (html_runs kinds on_row cx 0 row) as [spans|] eqn:E1; [|discriminate]. cbn [bind] in H.
-    destruct (html_rows kinds cursor (y + 1) rest) as [more|] eqn:E2; [|discriminate]. cbn [bind] in H.
-    inversion H; subst out. destruct (html_runs_ok _ _ _ _ _ _ E1) as (T1 & N1 & O1).
+    destruct (html_runs on_row cx 0 row) as [spans|] eqn:E1; [|discriminate]. cbn [bind] in H.
+    destruct (html_rows cursor (y + 1) rest) as [more|] eqn:E2; [|discriminate]. cbn [bind] in H.
+    inversion H; subst out. destruct (html_runs_ok _ _ _ _ _ E1) as (T1 & N1 & O1).
     destruct (IH _ _ E2) as (T2 & O2 & N2).
     split; [cbn [map]; rewrite T1, T2; reflexivity|]. split; [constructor; assumption|].
     cbn [total_swapped]. destruct cursor as [[x cy]|].
@@ -131,14 +130,14 @@ Qed.
 
 (* HtmlGenerator.draw_screen emits exactly the canvas text row by row (control characters as '?'), at most
    one span has its colours swapped, that span is one character, and none is swapped without a cursor *)
-Theorem html_exact_lemma kinds maxrow rows cursor out :
-  html_draw kinds maxrow rows cursor = Ok out ->
+Theorem html_exact_lemma maxrow rows cursor out :
+  html_draw maxrow rows cursor = Ok out ->
   map spans_text out = map row_text rows /\
   0 <= total_swapped out <= 1 /\ (cursor = None -> total_swapped out = 0) /\
   Forall one_char_highlights out.
 Proof.
   unfold html_draw. destruct (negb (maxrow =? zlen rows)); [discriminate|]. intros H.
-  destruct (html_rows_ok _ _ _ _ _ H) as (T & O & N).
+  destruct (html_rows_ok _ _ _ _ H) as (T & O & N).
   split; [exact T|]. split; [|split; [|exact O]].
   - destruct cursor as [[x cy]|]; [destruct (0 <=? cy)|]; lia.
   - intros ->. lia.
